@@ -166,6 +166,41 @@ static void run_case(Toks& t, std::ostream& os) {
     if (reuse == 1) { exec(ct % 4 + 1); exec(0); }
     if (reuse == 2) { clp.Clear(); clp.AddSubject(c); clp.AddClip(s); exec(ct); clp.Clear(); exec(ct); }
     if (reuse == 3) { Clipper64 clp2; clp2.AddReuseableData(rdc); Paths64 r; clp2.Execute((ClipType)ct, (FillRule)fr, r); dg(r); rdc.Clear(); }
+  } else if (cmd == "BSEQ") {
+    // BSEQ ct fr pc rs mode k (kind <paths>)*k      paths are added in the given order, item by item (the order of the
+    //   local minima list and therefore the order in which coincident edges meet depends on it)
+    //   kind 0 AddSubject  1 AddOpenSubject  2 AddClip ; +4: through its own ReuseableDataContainer64 ;
+    //   8: the most recently created container is added to the clipper AGAIN (its paths argument is ignored) ; mode as in B64
+    int ct = t.i32(), fr = t.i32(); bool pc = t.b(), rs = t.b(); int mode = t.i32(), k = t.i32();
+    std::vector<std::pair<int, Paths64>> items;
+    for (int i = 0; i < k; ++i) { int kind = t.i32(); Paths64 ps = t.paths(); set_z(ps, 100 * i); items.emplace_back(kind, std::move(ps)); }
+    entry((mode & 1) ? "Clipper64.Execute.PolyTree.seq" : "Clipper64.Execute.Paths.seq");
+    std::vector<std::unique_ptr<ReuseableDataContainer64>> conts;
+    Clipper64 clp;
+    clp.PreserveCollinear(pc); clp.ReverseSolution(rs);
+#ifdef USINGZ
+    if (mode & 4) clp.SetZCallback(zcb64);
+#endif
+    for (auto& it : items) {
+      int kd = it.first & 3;
+      if (it.first & 8) { if (!conts.empty()) clp.AddReuseableData(*conts.back()); }
+      else if (it.first & 4) {
+        conts.emplace_back(new ReuseableDataContainer64());
+        conts.back()->AddPaths(it.second, kd == 2 ? PathType::Clip : PathType::Subject, kd == 1);
+        clp.AddReuseableData(*conts.back());
+      } else if (kd == 0) clp.AddSubject(it.second); else if (kd == 1) clp.AddOpenSubject(it.second); else clp.AddClip(it.second);
+    }
+    bool ok;
+    if (mode & 1) {
+      PolyTree64 tree; Paths64 open;
+      ok = (mode & 2) ? clp.Execute((ClipType)ct, (FillRule)fr, tree, open) : clp.Execute((ClipType)ct, (FillRule)fr, tree);
+      dg(open); walk_tree(tree, 0); dg(PolyTreeToPaths64(tree)); g_dg.addd(tree.Area());
+    } else {
+      Paths64 closed, open;
+      ok = (mode & 2) ? clp.Execute((ClipType)ct, (FillRule)fr, closed, open) : clp.Execute((ClipType)ct, (FillRule)fr, closed);
+      dg(closed); dg(open);
+    }
+    g_dg.add(ok); g_dg.add(clp.ErrorCode());
   } else if (cmd == "BD") {
     // BD prec ct fr pc rs mode reuse <S> <O> <C>   (double paths)
     int prec = t.i32(), ct = t.i32(), fr = t.i32(); bool pc = t.b(), rs = t.b(); int mode = t.i32(), reuse = t.i32();
